@@ -1247,14 +1247,25 @@ hwloc__groups_by_distances(struct hwloc_topology *topology,
           group_obj->attr->group.subkind = topology->grouping_next_subkind;
           for (j=0; j<nbobjs; j++)
 	    if (groupids[j] == i+1) {
-	      /* assemble the group sets */
-	      hwloc_obj_add_other_obj_sets(group_obj, objs[j]);
+	      /* assemble the group sets.
+	       * the Group is placed by cpuset, CPU-less objects cannot end up below it,
+	       * hence their nodes do not belong to its nodesets.
+	       */
+	      hwloc_bitmap_t objset = objs[j]->complete_cpuset ? objs[j]->complete_cpuset : objs[j]->cpuset;
+	      if (objset && !hwloc_bitmap_iszero(objset))
+		hwloc_obj_add_other_obj_sets(group_obj, objs[j]);
               groupsizes[i]++;
             }
           hwloc_debug_1arg_bitmap("adding Group object with %u objects and cpuset %s\n",
                                   groupsizes[i], group_obj->cpuset);
-          res_obj = hwloc__insert_object_by_cpuset(topology, NULL, group_obj,
-                                                   (kind & HWLOC_DISTANCES_KIND_FROM_USER) ? "distances:fromuser:group" : "distances:group");
+          if (!hwloc_bitmap_iszero(group_obj->complete_cpuset ? group_obj->complete_cpuset : group_obj->cpuset)) {
+            res_obj = hwloc__insert_object_by_cpuset(topology, NULL, group_obj,
+                                                     (kind & HWLOC_DISTANCES_KIND_FROM_USER) ? "distances:fromuser:group" : "distances:group");
+          } else {
+            /* only CPU-less objects, nowhere to insert */
+            hwloc_free_unlinked_object(group_obj);
+            res_obj = NULL;
+          }
 	  /* res_obj may be NULL on failure to insert. */
 	  if (!res_obj)
 	    failed++;
